@@ -44,7 +44,8 @@ def compare_languages(A1: Set[str], A2: Set[str]) -> List[str]:
     A1minusA2 = sorted(A1 - A2, key=lambda x: (len(x)))
     A2minusA1 = sorted(A2 - A1, key=lambda x: (len(x)))
     feedback = []
-    if len(A1minusA2) > 0:
+    # report a shortest word on which the two languages differ
+    if len(A1minusA2) > 0 and (len(A2minusA1) == 0 or len(A1minusA2[0]) <= len(A2minusA1[0])):
         word = A1minusA2[0]
         word = 'ε' if not word else word
         feedback.append("Error: word '{}' should not be accepted".format(word))
